@@ -142,6 +142,11 @@ class EvqRun:
             if not nested:
                 self.snapshot(inside=False)
             return
+        if kind == 'scratch':
+            # another Environment of the user's own, with events for the same asset ids, next to this one
+            instrument.scratch_environment([1, 2, 3] if self.labels % 2 else [3, 1, -1])
+            self.sh.count('scratch_environments')
+            return
         if kind == 'sched':
             _, asset, dt, prio, inner = op
             self.labels += 1
@@ -247,7 +252,7 @@ def random_ops(rng, decimal=False, pause_centric=False, aim_pauses=False, bigint
         for _ in range(rng.choice([0, 0, 1, 1, 2])):
             x = rng.random()
             if x < 0.03 and depth == 0:
-                out.append(['snapshot'])
+                out.append(['snapshot'] if rng.random() < 0.6 else ['scratch'])
                 continue
             if x < 0.06 and depth == 0 and not bigint:
                 # the action fails after what it has done so far (possibly a pause)
@@ -334,7 +339,7 @@ def random_ops(rng, decimal=False, pause_centric=False, aim_pauses=False, bigint
             else:
                 ops.append(['cancel', a])
         elif x < 0.43 + w_pause:
-            ops.append(['snapshot'])
+            ops.append(['snapshot'] if rng.random() < 0.6 else ['scratch'])
         elif x < 0.75:
             ops.append(['step'])
         else:
